@@ -101,6 +101,8 @@ async fn workload(hseed: u64, cache: CacheMode, rng: &mut Rng) -> R<(Hist, Vec<I
     cfg.no_wait = rng.chance(1, 6);
     cfg.segment_size = *rng.pick(&[400, 700, 1000, 1_000_000_000]);
     cfg.messages_required_to_save = *rng.pick(&[1, 2, 3, 5, 1000]);
+    // the server's default is to re-create what the journal lists and the disk lacks; the strict setting refuses to start instead
+    cfg.recreate_missing_state = hseed % 2 == 0;
     let base = scratch_root().join(format!("k{:016x}", hseed));
     let dir = base.join("live");
     let images_dir = base.join("images");
@@ -331,6 +333,10 @@ async fn recover(h: &Hist, img: &Image, torn: Option<u64>, cache: CacheMode, rep
         Ok(Ok(i)) => i,
         Ok(Err(StartError::Panic(m))) => return Err(cv(h.hist, &h.cfg, &h.ops, "restart-succeeds", &format!("panic/{tk}/{}", img.kind), desc(json!({"panic": m})))),
         Ok(Err(StartError::Init(e))) => {
+            if img.snap.inflight.starts_with("delete_") && !h.cfg.recreate_missing_state {
+                // crash while delete_topic was removing directories: the journal still lists the topic, the loader finds half of it
+                return Err(cv(h.hist, &h.cfg, &h.ops, "restart-succeeds", "init-error/delete-in-flight", desc(json!({"init_error": e}))));
+            }
             if torn.is_none() {
                 return Err(cv(h.hist, &h.cfg, &h.ops, "restart-succeeds", &format!("init-error/untorn/{}", img.kind), desc(json!({"init_error": e}))));
             }
@@ -547,6 +553,7 @@ pub async fn run(ctx: &Ctx, rep: &mut ShardReport) {
                     "persister_overwrite" => "persister_overwrite",
                     "segment_open" => "segment_open",
                     "segment_delete" => "segment_delete",
+                    "partition_delete" => "partition_delete",
                     "log_write_nowait" => "log_write_nowait",
                     _ => "other",
                 });
